@@ -7,7 +7,7 @@ lines (never from the code under test): see DESIGN.md section 7, C05.
 
 import copy
 
-from common import (V, pair_faults, E3_METHODS, E3_NAMES, E3_CANON, EXC_ALL, EXC_SERIAL, IGNORED_NAMES, CMD_TEXTS, QRY_TEXTS,
+from common import (V, pair_faults, raise_pairs, E3_METHODS, E3_NAMES, E3_CANON, EXC_ALL, EXC_SERIAL, IGNORED_NAMES, CMD_TEXTS, QRY_TEXTS,
                     failish, req_name, decorate, wrong_line, simple_world, mk_ops, call, discover,
                     single_faults, with_faults, reply_fault)
 
@@ -210,8 +210,8 @@ def check(scn, hist):
                 failures.append((r_i, 'timeout' if line is None else 'bad_reply', name))
         for f in raised_here:
             failures.append((None, f[0] + '_' + f[1], None))
-        if text is not None and req_name(text).lower() in IGNORED_NAMES and raised_here:
-            ignored = True
+        if m == 'command' and text is not None and req_name(text).lower() in IGNORED_NAMES and raised_here:
+            ignored = True        # (command() only: query() records the failure for these names as for any other)
         err_after = a_['err'] is not None
         if ignored:
             if not (rec['ret'] is None or isinstance(rec['ret'], bool)):
@@ -412,6 +412,8 @@ def sweep_expand(cell):
     # two faults in one call: empty reads inside the budget, then an exception / unplug at any later I/O
     if m not in SERIAL_ONLY:
         for faults in pair_faults(base, 3):
+            yield with_faults(base, faults)
+        for faults in raise_pairs(rec):
             yield with_faults(base, faults)
 
 
